@@ -352,6 +352,10 @@ def Batch.rest (b : Batch) : List (List Nat) := b.bufs.drop b.index
 def Batch.advance (b : Batch) (e : List Nat) : Batch :=
   { bufs := b.bufs.set b.index [], remaining := b.remaining - e.length, index := b.index + 1 }
 
+/-! ## `FileSetInner::emit` (lib.rs:480-506): the separator is appended unless the writer already ended with it -/
+
+def finishEvent (sep buf : List Nat) : List Nat := if sep.isSuffixOf buf then buf else buf ++ sep
+
 /-! ## The worker -/
 
 structure Config where
